@@ -362,4 +362,98 @@ theorem merge_interface_nested_fails_iff {W : Colls} {types : Types} (hW : W.mem
   · refine ⟨.inr ⟨msg, h1⟩, ⟨(fun ⟨s1, h2⟩ => by rw [h1] at h2; cases h2), (fun ⟨M, hM⟩ => ?_)⟩⟩
     simp [meet, hnone] at hM
 
+/-! ### equal requirements merge to themselves -/
+
+theorem nfragB_of_snoc {cs : List Req} {r' : Req} (h : nfragB (cs ++ [r']) = true) : nfragB cs = true := by
+  obtain ⟨h1, h2⟩ := nfragB_spec h
+  simp only [nfragB, Bool.and_eq_true, List.all_eq_true, decide_eq_true_eq]
+  exact ⟨fun r hr => h1 r (List.mem_append_left _ hr), (List.pairwise_append.1 h2).1⟩
+
+/-- **`agg_absorb_nested`** (nested fragment; target 3 for a requirement that arrives again from
+another collection): after a successful aggregation, aggregating a requirement `r'` of a new
+collection whose type equals that of a contributor `r` with a semver-compatible name succeeds, and
+every contributor's merged import stays the same type up to the order of exports — equal
+requirements merge to themselves, at every nesting depth.  (Re-aggregating `r` itself, i.e. with
+the SAME collection uid, is `agg_idempotent`; it is proved for the flat fragment only.) -/
+theorem agg_absorb_nested (cs : List Req) (r r' : Req) (hr : r ∈ cs) (hf' : nfragB (cs ++ [r']) = true)
+    (hc : compat r.1 r'.1 = true) (htree : r'.2.1.unfold r'.2.2 = r.2.1.unfold r.2.2)
+    (A : AggState) (h : aggregateAll cs Agg.empty = .ok A) :
+    ∃ A', aggregate r'.1 r'.2.1 r'.2.2 A = .ok ((), A') ∧
+      ∀ q, q ∈ cs → ∀ m m', MergedTree A q.1 m → MergedTree A' q.1 m' → sub m m' = true ∧ sub m' m = true := by
+  have hf := nfragB_of_snoc hf'
+  have hLB := (fails_iff_incompatible_nested cs hf).1.1 ⟨A, h⟩
+  -- the extended list has common subtypes, too
+  have hLB' : ClassLB (cs ++ [r']) := by
+    have key : ∀ x, x ∈ cs → ∃ X : Tree, X.namesDistinct = true ∧
+        ∀ r'', r'' ∈ cs ++ [r'] → compat r''.1 x.1 = true → ∀ c, r''.2.1.unfold r''.2.2 = some c → sub X c = true := by
+      intro x hx
+      obtain ⟨X, hX, hXall⟩ := hLB x hx
+      refine ⟨X, hX, fun r'' hr'' hcx c hcu => ?_⟩
+      rcases List.mem_append.1 hr'' with h1 | h1
+      · exact hXall r'' h1 hcx c hcu
+      · simp only [List.mem_singleton] at h1
+        subst h1
+        exact hXall r hr (compat_trans hc hcx) c (by rw [← htree]; exact hcu)
+    intro x hx
+    rcases List.mem_append.1 hx with h1 | h1
+    · exact key x h1
+    · simp only [List.mem_singleton] at h1
+      subst h1
+      obtain ⟨X, hX, hXall⟩ := key r hr
+      exact ⟨X, hX, fun r'' hr'' hcx => hXall r'' hr'' (compat_trans hcx (by rw [compat_comm]; exact hc))⟩
+  obtain ⟨A'', hA''⟩ := (fails_iff_incompatible_nested (cs ++ [r']) hf').1.2 hLB'
+  have hA0 := hA''
+  rw [aggregateAll_snoc, h] at hA0
+  simp only at hA0
+  cases ha : aggregate r'.1 r'.2.1 r'.2.2 A with
+  | error e => rw [ha] at hA0; cases hA0
+  | ok us =>
+    obtain ⟨u, A'⟩ := us
+    rw [ha] at hA0
+    simp only [Except.ok.injEq] at hA0
+    subst hA0
+    refine ⟨A', by cases u; rfl, ?_⟩
+    intro q hq m m' hm hm'
+    have hG := nfrag_invariant cs hf A h
+    have hG' := nfrag_invariant (cs ++ [r']) hf' A' hA''
+    have hall := (nfragB_spec hf).1
+    have hall' := (nfragB_spec hf').1
+    have happ : withNForests (cs ++ [r']) = withNForests cs ++ withNForests [r'] := by
+      simp only [withNForests, List.filterMap_append]
+    obtain ⟨Gq, hmemq, _⟩ := mem_withNForests (fun r hr => (hall r hr).1) hq
+    obtain ⟨G, hmemr, hfG⟩ := mem_withNForests (fun r hr => (hall r hr).1) hr
+    have hsub : ∀ p, p ∈ (withNForests cs).reverse → p ∈ (withNForests (cs ++ [r'])).reverse := by
+      intro p hp
+      rw [happ]
+      simp only [List.mem_reverse] at hp ⊢
+      exact List.mem_append_left _ hp
+    have hcopy : ∀ p', p' ∈ (withNForests (cs ++ [r'])).reverse →
+        ∃ p, p ∈ (withNForests cs).reverse ∧ compat p.1.1 p'.1.1 = true ∧ p.2 = p'.2 := by
+      intro p' hp'
+      rw [happ] at hp'
+      simp only [List.mem_reverse] at hp'
+      rcases List.mem_append.1 hp' with h1 | h1
+      · exact ⟨p', by simpa using h1, compat_refl _, rfl⟩
+      · obtain ⟨hm1, hf1⟩ := withNForests_mem h1
+        simp only [List.mem_singleton] at hm1
+        refine ⟨(r, G), by simpa using hmemr, by rw [hm1]; exact hc, ?_⟩
+        have e1 := (nestForest_spec hfG).2
+        have e2 := (nestForest_spec hf1).2
+        rw [hm1, htree, e1] at e2
+        simp only [Option.some.injEq, Tree.instance.injEq] at e2
+        exact e2
+    have hmemq0 : (q, Gq) ∈ (withNForests cs).reverse := by simpa using hmemq
+    obtain ⟨F, hF, _⟩ := hG.tinv.sat (q, Gq) hmemq0
+    obtain ⟨F', hF', _⟩ := hG'.tinv.sat (q, Gq) (hsub _ hmemq0)
+    rw [mergedTree_det hm (impN_merged hF), mergedTree_det hm' (impN_merged hF')]
+    exact ginvN_equiv_ext hG hG' hsub hcopy (q := (q, Gq)) hmemq0 hF hF'
+
+/-- `qB'`: the requirement `qB` once more, from another collection, under a lower version -/
+def nB' : Types := { nB with uid := 7 }
+def qB' : Req := ("a:b/c@1.1.0".toList, nB', .instance 3)
+
+example : qB ∈ [qA, qB] ∧ nfragB ([qA, qB] ++ [qB']) = true ∧ compat qB.1 qB'.1 = true ∧
+    qB'.2.1.unfold qB'.2.2 = qB.2.1.unfold qB.2.2 ∧ (aggregateAll [qA, qB] Agg.empty).toOption.isSome = true := by
+  refine ⟨by decide, by decide +kernel, by decide, by decide +kernel, by decide +kernel⟩
+
 end Wac.Props.C09Nested
